@@ -106,12 +106,14 @@ PROPS = {
     },
     "C18": {
         "level": "proof",
-        "verus": ["schema_lookup"],
-        "explanation": "KERNEL ONLY: Schema::type_field, the lookup through which every field of an executable document gets the schema's definition of that field on its parent type. Verus proves for every schema, "
+        "verus": ["schema_lookup", "executable_ctor"],
+        "explanation": "KERNEL ONLY (two parts). Unit executable_ctor: the constructors through which every field and inline fragment gets its annotations -- SelectionSet::new_field is Ok exactly when the parent type has that field "
+                       "or meta-field and then carries exactly that definition (Schema::type_field's proved contract, shared text), with a sub-selection set typed by the inner named type of the definition's type; Field::new / Field::ty; "
+                       "an inline fragment's selection set is typed by its type condition, or by the parent's type when it has none (new_inline_fragment, with_type_condition, without_type_condition). Unit schema_lookup: Schema::type_field, the lookup through which every field of an executable document gets the schema's definition of that field on its parent type. Verus proves for every schema, "
                        "type name and field name: the explicit field of an object / interface type if there is one; otherwise __typename on object, interface and union types only; otherwise __schema / __type on the "
                        "query root type only; otherwise Err(NoSuchType) iff the type is undefined, Err(NoSuchField(type name, type definition)) else. The body is re-extracted from /repo on every run.",
         "assumptions": ["IndexMap::get / get_key_value find the entry keyed by the text; MetaFieldDefinitions::get() returns the three implicit definitions; &str values with equal characters are equal (axiom)"],
-        "not_decided": ["everything else of C18: that Field::new / extend_from_ast call type_field with the right parent type and type selection sets by the field's inner type / the type condition, "
+        "not_decided": ["everything else of C18: that from_ast calls these constructors with the right parent type for every selection (the AST conversion loop), "
                         "the validity guarantees (spreads acyclic, variables defined, leaf / composite sub-selections), the root_fields / all_fields iterators"],
     },
     "C26": {
